@@ -113,6 +113,18 @@ fn generate_dynamic(g: &mut Gen, stats: &mut GenStats) -> Scenario {
         let (e, r) = g.walk_glob(&model, &base, 1, true, &mut stats.rejections);
         w.source = Source::Glob { expr: e, rooted: r };
     }
+    // sometimes a real `filter_entry` layer below the observer: its discards act on whatever the
+    // walker remembers about the entry while the tree moves
+    if g.rng.chance(4, 10) {
+        let mut table: Vec<(String, Verdict)> = Vec::new();
+        for _ in 0..g.rng.range(1, 3) {
+            let n = g.rng.pick(&tree);
+            if !table.iter().any(|(p, _)| *p == n.path) {
+                table.push((n.path.clone(), if g.rng.chance(2, 3) { Verdict::Tree } else { Verdict::File }));
+            }
+        }
+        w.layers.insert(0, Layer::Fe(table));
+    }
     // targets: anything that is not the working directory, the base, or above them
     let protected = |p: &str| is_under(&cwd, p) || is_under(&base, p);
     let targets: Vec<&Node> = tree.iter().filter(|n| !protected(&n.path)).collect();
@@ -123,6 +135,18 @@ fn generate_dynamic(g: &mut Gen, stats: &mut GenStats) -> Scenario {
     for _ in 0..k {
         if targets.is_empty() {
             break;
+        }
+        // a transient fault: permissions revoked by an earlier mutation are restored
+        if let Some(prev) = mutations.iter().find(|m: &&Mutation| matches!(m.op, MutOp::Chmod(0) | MutOp::Chmod(0o444))) {
+            if g.rng.chance(1, 3) {
+                let path = prev.path.clone();
+                for _ in 0..g.rng.range(0, 3) {
+                    schedule.push(Step::W(0));
+                }
+                schedule.push(Step::M(mutations.len()));
+                mutations.push(Mutation { path, op: MutOp::Chmod(0o755) });
+                continue;
+            }
         }
         let t = *g.rng.pick(&targets);
         // no mutation is aimed at or through a path that an earlier mutation turned into a link
@@ -187,6 +211,7 @@ fn generate_dynamic(g: &mut Gen, stats: &mut GenStats) -> Scenario {
         mutations,
         schedule,
         triggers,
+        lazy: false,
     }
 }
 
@@ -284,15 +309,35 @@ pub fn generate(rng: &mut Rng, tier: Tier, stats: &mut GenStats) -> Scenario {
         let deepest = tree.iter().map(|n| depth_of(&n.path)).max().unwrap_or(1);
         w.depth = Depth::Max(g.rng.range(1, deepest + 1));
     }
+    // Faults hit by one walk must not affect another: sometimes a second, independent walk (often
+    // over a healthy part of the tree) is advanced alternately.
+    let mut walkers = vec![w];
+    let mut schedule = vec![];
+    let mut lazy = false;
+    if g.rng.chance(1, 8) {
+        let dirs = Gen::plain_dirs(&model);
+        let mut w2 = walkers[0].clone();
+        w2.base = g.rng.pick(&dirs).clone();
+        w2.source = if g.rng.chance(1, 2) { Source::Path } else { Source::Glob { expr: "**".into(), rooted: false } };
+        w2.layers = vec![Layer::Fe(vec![])];
+        w2.depth = Depth::Unbounded;
+        w2.order = g.order(false);
+        w2.spelling = g.spelling();
+        w2.erased = false;
+        walkers.push(w2);
+        schedule = interleaving(g.rng, 2, tree.len());
+        lazy = g.rng.chance(1, 3);
+    }
     Scenario {
         prop: "C20".into(),
         seed: 0,
         tree,
         cwd,
-        walkers: vec![w],
+        walkers,
         mutations: vec![],
-        schedule: vec![],
+        schedule,
         triggers: vec![],
+        lazy,
     }
 }
 
@@ -411,10 +456,40 @@ fn dynamic_check(sc: &Scenario, env: &mut Env) -> Result<Outcome, HarnessError> 
     let models: Vec<Model> = states.iter().filter_map(|st| Model::from_tree(st).ok()).collect();
     let existed = |p: &str| models.iter().any(|m| m.resolve(p, false).is_ok());
     // isolated: everything outside the tainted regions is exact
+    // verdicts of `filter_entry` layers (by path): discarded entries and everything beneath a
+    // directory discarded as a tree are not expected
+    // (a verdict only exists for an entry the closure was actually shown: a glob walk that starts
+    // at its prefix directory never shows the directories above it)
+    let verdict_of = |p: &str| -> Verdict {
+        view.saws
+            .iter()
+            .filter(|s| s.wp.as_deref() == Some(p))
+            .map(|s| s.verdict)
+            .max()
+            .unwrap_or(Verdict::Keep)
+    };
+    let dir_nodes: BTreeSet<&str> = pre_visits.iter().filter(|v| v.is_dir).map(|v| v.path.as_str()).collect();
+    let discarded = |p: &str| -> bool {
+        if verdict_of(p) != Verdict::Keep {
+            return true;
+        }
+        let mut q = p;
+        while !q.is_empty() {
+            q = parent(q);
+            if dir_nodes.contains(q) && verdict_of(q) == Verdict::Tree && is_under(q, &space.start) {
+                return true;
+            }
+        }
+        false
+    };
     let mut expected: Vec<String> = Vec::new();
     let mut base_may = false;
     for v in &pre_visits {
         if tainted(&v.path) {
+            continue;
+        }
+        if discarded(&v.path) {
+            // (beneath a tainted tree-discarded directory everything is tainted anyway)
             continue;
         }
         let m = matches(&v.path);
@@ -558,6 +633,9 @@ pub fn check(sc: &Scenario, env: &mut Env) -> Result<Outcome, HarnessError> {
     let log = run_main(sc, env, &mut out)?;
     panic_clause("C20", sc, &log, &mut out);
     out.probe("config:static");
+    if sc.walkers.len() > 1 {
+        out.probe("walkers:two-interleaved-over-a-faulty-tree");
+    }
     let model = model_of(sc)?;
     let heal = healed(sc);
     for (wi, w) in sc.walkers.iter().enumerate() {
